@@ -252,6 +252,15 @@ def c138(ctx):
         if not ops or "&mut mani::Manifest" not in f.locals[1]:
             continue
         n += 1
+        # every fallible step is recorded: the result of each file operation is handed to Manifest::poison (a failure that is merely
+        # returned leaves a handle that still accepts edits while its in-memory state has already moved on)
+        rec = P.call_points(f, r"^mani::Manifest::poison$")
+        for pt in ops + P.call_points(f, r"std::io::Write::flush$|Write>::flush$|std::fs::File::sync_data$|std::fs::File::sync_all$"):
+            routed = any(any(x["k"] == "call" and x["pt"] == pt for x in P.origins(f, P.term_at(f, q_)["args"][1])) for q_ in rec)
+            ctx.check(R, f, "failure-recorded", routed, "the result of %s goes through Manifest::poison" % P.short(callee_skey(P.term_at(f, pt))),
+                      "%s: the result of %s is returned without being recorded in `poison`: after such a failure the handle keeps accepting edits although "
+                      "its in-memory state already contains the edit that was not written, and the next rollover writes that edit out" % (
+                          f.skey, P.short(callee_skey(P.term_at(f, pt)))), pt=pt)
         first = [p_ for p_ in ops if not any(q_ != p_ and not P.order(f, [q_], [p_]) for q_ in ops)] or ops[:1]
         for pt in first:
             ctx.check(R, f, "poison-honoured", honoured(f, pt), "the first file operation is taken only when no earlier write has failed",
